@@ -148,7 +148,9 @@ func (p *DefaultOpcodeParser) Parse(s *bscript.Script) (ParsedScript, error) {
 		}
 
 		switch parsedOp.op.val {
-		case bscript.OpIF, bscript.OpNOTIF, bscript.OpVERIF, bscript.OpVERNOTIF:
+		case bscript.OpIF, bscript.OpNOTIF:
+			// OP_VERIF and OP_VERNOTIF do not open a block: they are invalid when
+			// executed and ignored in a branch that is not.
 			conditionalBlock++
 		case bscript.OpENDIF:
 			conditionalBlock--
